@@ -2,7 +2,11 @@ package props
 
 import (
 	"fmt"
+	"reflect"
 	"strings"
+	"time"
+
+	"github.com/go-kid/ioc/container"
 
 	"verifharness/core"
 	"verifharness/mon"
@@ -91,9 +95,78 @@ func (p c01) ppDependency(c *core.Ctx) {
 	c.Nontrivial("ppdep|" + g.Sc.GraphSig() + fmt.Sprint(plan))
 }
 
+// bulkLazy: several lazy components of one type share a lazy dependency (whose initialisation takes a
+// moment and which a post-processor may decorate); nothing needs them during the start. They are fetched
+// together with one listing (GetComponents by type) afterwards: all of them hold the one published version
+// of the shared dependency.
+func (p c01) bulkLazy(c *core.Ctx) {
+	g := world.NewG(c.Rng)
+	store := g.AddNode(8, "shared-store") // T08: IA, lazy, Init
+	nW := 3 + c.Rng.Intn(8)
+	var workers []int
+	for i := 0; i < nW; i++ {
+		w := g.AddNode(7, fmt.Sprintf("worker-%d", i)) // T07: lazy
+		g.SetTag(w, []string{"IA0", "Any0"}[c.Rng.Intn(2)], "wire", "shared-store")
+		workers = append(workers, w)
+	}
+	for x := 0; x < c.Rng.Intn(3); x++ {
+		g.AddRandomNode(plainAB, 0.2)
+	}
+	g.ShuffleOrders()
+	plan := map[string]world.SubPlan{}
+	if c.Rng.Intn(3) > 0 {
+		plan["shared-store"] = []world.SubPlan{{After: true}, {Before: true}}[c.Rng.Intn(2)]
+	}
+	pause := []time.Duration{0, 200 * time.Microsecond, 2 * time.Millisecond}[c.Rng.Intn(3)]
+	hook := func(kind string, who world.Node) {
+		if kind == "init" && who.DisplayName() == "shared-store" && pause > 0 {
+			time.Sleep(pause)
+		}
+	}
+	r := world.Start(g.Sc, world.Options{Extra: []any{world.NewSubstituter(plan)}, Hook: hook})
+	c.Count("starts", 1)
+	c.Count("bulk_listing_starts", 1)
+	detail := failDetail(g.Sc, r, map[string]any{"substitution_plan": plan, "workers": nW})
+	if r.Outcome() != "ok" {
+		c.Fail("", "lazy workers sharing a lazy dependency: "+core.Short(r.OutcomeDetail(), 300), detail)
+		return
+	}
+	var listed []any
+	var err error
+	r.Guard(func() { listed, err = r.App.GetComponents(container.Type(reflect.TypeOf(r.Nodes[workers[0]]))) })
+	if r.Panic != nil || r.Diverge != nil {
+		c.Fail("", "listing the lazy workers by type: "+r.OutcomeDetail(), detail)
+		return
+	}
+	if err != nil {
+		c.Fail("", "listing the lazy workers by type (GetComponents) failed: "+core.Short(err.Error(), 300), detail)
+		return
+	}
+	nT07 := 0
+	for _, ns := range g.Sc.Nodes {
+		if ns.Type == 7 {
+			nT07++
+		}
+	}
+	if len(listed) != nT07 {
+		c.Fail("", fmt.Sprintf("listing the lazy workers by type returns %d objects for %d components of that type", len(listed), nT07), detail)
+		return
+	}
+	_ = store
+	if problems := r.CheckIdentity(world.Describe(r.Population())); len(problems) > 0 {
+		c.Fail("", "after one listing fetched all lazy workers: "+problems[0], detail)
+		return
+	}
+	c.Nontrivial(fmt.Sprintf("bulk|%d|%v|%v", nW, plan, pause))
+}
+
 func (p c01) Run(c *core.Ctx) {
 	if c.Index%16 == 7 && c.Index < p.randomCount(c.Tier) {
 		p.ppDependency(c)
+		return
+	}
+	if c.Index%16 == 11 && c.Index < p.randomCount(c.Tier) {
+		p.bulkLazy(c)
 		return
 	}
 	var sc *world.Scenario
